@@ -69,7 +69,7 @@ fn chunking<const N: usize>() {
     kani::cover!(len == 0, "empty payload");
 }
 
-//@ harness: c12_chunks40 props=C12,C01,C07 tier=quick class=functional_rel covers=6 mem=12 timeout=1200 est=150
+//@ harness: c12_chunks40 props=C04 also=C12 tier=quick class=functional_rel covers=6 mem=12 timeout=1200 est=150
 //@ bounds: every payload of length 0..=40 bytes, arbitrary contents (release semantics: the code's debug_assert!s compiled out; they are decided separately by c12_wellformed)
 #[kani::proof]
 #[kani::unwind(42)]
@@ -78,7 +78,7 @@ fn c12_chunks40() {
     chunking::<40>();
 }
 
-//@ harness: c12_chunks64 props=C12,C01,C07 tier=thorough class=functional_rel covers=6 mem=24 timeout=3000 est=900
+//@ harness: c12_chunks64 props=C12,C01,C07 tier=quick class=functional_rel covers=6 mem=16 timeout=1500 est=120
 //@ bounds: every payload of length 0..=64 bytes, arbitrary contents (release semantics)
 #[kani::proof]
 #[kani::unwind(66)]
@@ -116,4 +116,13 @@ fn c12_wellformed() {
     kani::cover!(fmt0 && k == 2, "format 0, two slots");
     kani::cover!(!fmt0 && k == 2 && ff == 15, "format 2, two words, 15 bytes padding");
     kani::cover!(!fmt0 && k == 3 && ff == 3, "format 2, three words, 3 bytes padding");
+}
+
+//@ harness: c12_chunks100 props=C12 tier=thorough class=functional_rel covers=6 mem=28 timeout=3000 est=900
+//@ bounds: every payload of length 0..=100 bytes, arbitrary contents (release semantics)
+#[kani::proof]
+#[kani::unwind(102)]
+#[kani::stub(alloc::fmt::format, crate::vsup::stub_format)]
+fn c12_chunks100() {
+    chunking::<100>();
 }
